@@ -741,7 +741,9 @@ def oracle(ctx, kind, case, out):
             x.to_wire(fz, {}, origin)
             wz = fz.getvalue()
             yz = dns.rdata.from_wire(cl, ty, wz, 0, len(wz), origin)
-            if (not below and not (yz == x)) or yz.to_wire(origin=origin) != w:
+            # (compression is ASCII-case-insensitive: a repeated suffix comes back in the case of its
+            # first occurrence, so the octets are compared modulo case)
+            if yz.to_wire(origin=origin).lower() != w.lower():
                 fail("the compressed encoding does not decode to an equal record", **tags)
         except Exception as e:
             fail("canonical / compressed encoding raised " + type(e).__name__ + ": " + str(e)[:60], **tags)
